@@ -30,7 +30,7 @@ const (
 func TestMain(m *testing.M) {
 	vlib.Rule("C11: histories of 5-40 steps over 2-5 modelled volume servers (1-2 data centers / racks), 6 volume ids with a fixed replication in {000,001,010} and collection, replicationAsMin in {false,true}, size limit 1000. " +
 		"Steps: local changes on a server (add / remove a volume, toggle read-only, change size across the limit), full heartbeat of the server's true volume list, delivery of a queued incremental new/deleted message (queues per type, so the two types overtake each other and full heartbeats), replay of an earlier incremental message, stream end, reconnect (also before the master has seen the old stream end), refresh (one round of the full-volume collector). " +
-		"Every heartbeat goes through the real MasterServer.SendHeartbeat handler over a harness stream; the oracle runs after every step. Plus a bounded-exhaustive enumeration of all applicable op sequences (length 3 quick / 4 thorough) over 2 servers and one 001 volume from two start states. " +
+		"Every heartbeat goes through the real MasterServer.SendHeartbeat handler over a harness stream; the oracle runs after every step. Plus a bounded-exhaustive enumeration of all applicable op sequences (length 3 quick / 5 thorough) over 2 servers and one 001 volume from two start states. " +
 		"Non-trivial = the history contains a read-only flip, a stream end, or a stale/duplicate incremental message. Distinct = distinct written-out history.")
 	vlib.Assume("'Registered' is what the heartbeats so far have told the master: a full heartbeat replaces the server's list, an incremental new message adds the volume as writable with size 0 (the short message carries neither), an incremental deleted message removes it, a closed stream removes the server unless a newer stream of the same server is open.")
 	vlib.Assume("The raft server is a stub that is always leader (Topology.Leader() answers at once); the refresh step is Topology.VerifRefreshOnce, which runs CollectDeadNodeAndFullVolumes and the chanFullVolumes/chanCrowdedVolumes consumer of StartRefreshWritableVolumes once, synchronously.")
@@ -657,7 +657,7 @@ func (w *world) drawOp(t *rapid.T) op {
 }
 
 func TestPropHeartbeatHistories(t *testing.T) {
-	vlib.Check(t, 3000, 40000, func(t *rapid.T) {
+	vlib.Check(t, 6000, 60000, func(t *rapid.T) {
 		rand.Seed(rapid.Int64().Draw(t, "globalRandSeed"))
 		asMin := rapid.Bool().Draw(t, "replicationAsMin")
 		w := newWorld(asMin, t.Fatalf)
@@ -704,7 +704,7 @@ func TestPropHeartbeatHistories(t *testing.T) {
 // for both replicationAsMin settings, from an empty cluster and from a cluster
 // where both replicas are registered and the volume is offered.
 func TestPropSmallExhaustive(t *testing.T) {
-	depth := vlib.Pick(3, 4)
+	depth := vlib.Pick(3, 5)
 	var alphabet []op
 	for s := 0; s < 2; s++ {
 		alphabet = append(alphabet,
